@@ -853,12 +853,17 @@ def check_latex_case(ctx, case):
                 ref_terms.append(((complex(a).real, complex(a).imag), [i, j], names))
             params[f"A{k}"] = A
             params[f"B{k}"] = [(str(i), str(j)) for i, j in bonds]
-            pieces.append(rf"\sum_{{j,k \in B{k}}} A{k}_{{j,k}} {latex_name(names[0])}_{{j}} {latex_name(names[1])}_{{k}}")
+            pieces.append(("+ " if k > 0 else "") + rf"\sum_{{j,k \in B{k}}} A{k}_{{j,k}} {latex_name(names[0])}_{{j}} {latex_name(names[1])}_{{k}}")
         else:
-            params[f"w{k}"] = a
-            pieces.append(f"w{k} " + " ".join(f"{latex_name(nm)}_{{{p}}}" for p, nm in zip(pos, names)))
+            word = " ".join(f"{latex_name(nm)}_{{{p}}}" for p, nm in zip(pos, names))
+            if k > 0 and not isinstance(a, complex) and a < 0:
+                params[f"w{k}"] = -a                    # written as "- w op op": exercises the 'minus' rewriting
+                pieces.append(f"- w{k} {word}")
+            else:
+                params[f"w{k}"] = a
+                pieces.append(f"+ w{k} {word}" if k > 0 else f"w{k} {word}")
             ref_terms.append(((complex(a).real, complex(a).imag), pos, names))
-    H_str = " + ".join(pieces)
+    H_str = " ".join(pieces)
     ref = dense_terms(fam, N, list(range(N)), ref_terms)
     scale = max(1.0, sum(abs(complex(*t[0])) * float(np.prod([max(1.0, np.abs(fam.table[n_][1]).sum(axis=1).max()) for n_ in t[2]]))
                          for t in ref_terms))
@@ -958,8 +963,8 @@ def run(ctx):
     check_tables(ctx)
     check_parse_bonds(ctx)
 
-    n_main = 9 if quick else 40
-    n_fmap = 6 if quick else 25
+    n_main = 14 if quick else 40
+    n_fmap = 10 if quick else 25
     n_zero = 2 if quick else 8
     for fam in fams:
         if fam.names == ["I"]:
@@ -988,7 +993,7 @@ def run(ctx):
                 if stratum in ("main", "fmap"):
                     lean_terms_check(ctx, case)
         # LaTeX generator (linear fermionic order only; amplitudes through parameters)
-        for _ in range(1 if quick else 6):
+        for _ in range(3 if quick else 10):
             N = pick_N(fam, rng, quick)
             terms = gen_term_list(fam, N, rng)
             if terms is None:
